@@ -11,26 +11,6 @@ open Gen
 set_option linter.unusedSimpArgs false
 set_option linter.unusedVariables false
 
-/-- the formats that have a decoder -/
-def ft13 : List Nat :=
-  [FT_SOP2, FT_SOPK, FT_SOP1, FT_SOPC, FT_SOPP, FT_VOP2, FT_VOP1, FT_VOPC, FT_SMEM, FT_VOP3a, FT_VOP3b, FT_DS, FT_FLAT]
-
-/-- canonical form of the words a decode looks at: the format is matched and the row looked up as `Decode` does, then
-    `normRow`; words that match no format / no row are left alone (they are errors whatever the other bits say) -/
-def normCore (c : Bool) (w0 : Nat) (w1? : Option Nat) : Nat × Option Nat :=
-  match matchFormat w0 with
-  | none => (w0, w1?)
-  | some f =>
-    match lookUpArch c f.ft (extractBits w0 f.opLo f.opHi) with
-    | none => (w0, w1?)
-    | some row => if ft13.contains f.ft then normRow c f.ft row w0 w1? else (w0, w1?)
-
-/-- an SDWA dword with bit 30 set: the decoder reads the SRC0-is-SGPR flag there; the ISA has it at bit 23 -/
-def sdwa30 (w0 : Nat) (w1? : Option Nat) : Bool :=
-  match matchFormat w0, w1? with
-  | some f, some w1 => f.ft == FT_VOP2 && extractBits w0 0 8 == 249 && extractBits w1 30 30 != 0
-  | _, _ => false
-
 theorem ft13_cases {n : Nat} (h : ft13.contains n = true) :
     n = FT_SOP2 ∨ n = FT_SOPK ∨ n = FT_SOP1 ∨ n = FT_SOPC ∨ n = FT_SOPP ∨ n = FT_VOP2 ∨ n = FT_VOP1 ∨ n = FT_VOPC ∨
     n = FT_SMEM ∨ n = FT_VOP3a ∨ n = FT_VOP3b ∨ n = FT_DS ∨ n = FT_FLAT := by
